@@ -51,7 +51,7 @@ def run(ctx, res):
     for fn in ("get_block", "mtbl_reader_init_fd"):
         f = prog.need(fn, R)
         res.saw(f)
-        ev = APE.run(prog, cg, f, bound=1)
+        ev = APE.run(prog, cg, f, bound=APE.BOUND)
         n_on = 0
         for p in ev.paths:
             evs = list(p.events)
@@ -134,7 +134,7 @@ def run(ctx, res):
                     okloop = (start == 1 and c["op"] == "<=") or (start == 0 and c["op"] == "<")
     res.check(okloop, "C12.R3", site(vd, "loop-covers-all-blocks"), "the loop visits exactly count_data_blocks blocks",
               "the verification loop does not visit every data block (the last or first block is skipped)", vd.loc(vd.body))
-    ev = APE.run(prog, ctx.cg_all, vd, bound=1)
+    ev = APE.run(prog, ctx.cg_all, vd, bound=APE.BOUND)
     seen_mis = seen_over = False
     for p in ev.paths:
         if p.end != "exit":
@@ -166,7 +166,7 @@ def run(ctx, res):
                           "true returned although a block's checksum was not required to match", vd.loc(ce.node), p.describe(vd))
     res.check(seen_mis and seen_over, "C12.R3", site(vd, "failure-edges"), "mismatch and overrun edges exist", "mismatch edge: %s, overrun edge: %s" % (seen_mis, seen_over))
     # payload = framed payload (offset + len_len + 4, size) - shared with C11.R1; here: crc over (raw_contents, raw_contents_size)
-    evf = APE.run(prog, ctx.cg_all, vf, bound=1)
+    evf = APE.run(prog, ctx.cg_all, vf, bound=APE.BOUND)
     for p in evf.paths:
         if p.end != "exit":
             continue
@@ -187,7 +187,7 @@ def run(ctx, res):
             nret = [v for (a, b), v in p.cons.items() if a == APE.vstr(rinit[0].c) and b == "#0"] if rinit else []
     mainf = prog.func("main", vu)
     if mainf is not None:
-        evm = APE.run(prog, ctx.cg_all, mainf, bound=1)
+        evm = APE.run(prog, ctx.cg_all, mainf, bound=APE.BOUND)
         for p in evm.paths:
             if p.end != "exit":
                 continue
